@@ -96,9 +96,9 @@ void compareViews(Ctx& ctx, const TreeView& got, const TreeView& expect, unsigne
 }
 
 template <class T>
-static bool arraysCloseT(const unsigned char* a, const unsigned char* b, size_t bytes, double tol, double& worst) {
+static bool arraysCloseT(const unsigned char* a, const unsigned char* b, size_t bytes, double tol, double& worst, double scaleFloor) {
     const size_t n = bytes / sizeof(T);
-    double maxabs = 0;
+    double maxabs = scaleFloor;
     for (size_t i = 0; i < n; ++i) { T e; std::memcpy(&e, b + i * sizeof(T), sizeof e); if (e == e && std::fabs(double(e)) > maxabs) maxabs = std::fabs(double(e)); }
     bool ok = true;
     for (size_t i = 0; i < n; ++i) {
@@ -112,9 +112,16 @@ static bool arraysCloseT(const unsigned char* a, const unsigned char* b, size_t 
     return ok;
 }
 static bool g_tolFloat = false;
-static bool arraysClose(const unsigned char* a, const unsigned char* b, size_t bytes, double tol, double& worst) {
-    return g_tolFloat ? arraysCloseT<float>(a, b, bytes, tol, worst) : arraysCloseT<double>(a, b, bytes, tol, worst);
+static bool arraysClose(const unsigned char* a, const unsigned char* b, size_t bytes, double tol, double& worst, double scaleFloor = 0) {
+    return g_tolFloat ? arraysCloseT<float>(a, b, bytes, tol, worst, scaleFloor) : arraysCloseT<double>(a, b, bytes, tol, worst, scaleFloor);
 }
+template <class T>
+static double maxAbsT(const unsigned char* b, size_t bytes) {
+    double m = 0;
+    for (size_t i = 0; i < bytes / sizeof(T); ++i) { T e; std::memcpy(&e, b + i * sizeof(T), sizeof e); if (e == e && std::fabs(double(e)) < 1e300 && std::fabs(double(e)) > m) m = std::fabs(double(e)); }
+    return m;
+}
+static double maxAbs(const unsigned char* b, size_t bytes) { return g_tolFloat ? maxAbsT<float>(b, bytes) : maxAbsT<double>(b, bytes); }
 
 void compareViewsTol(Ctx& ctx, const TreeView& got, const TreeView& expect, double tol, const std::string& cls, const std::string& what) {
     g_tolFloat = ctx.isFloat;
@@ -126,12 +133,19 @@ void compareViewsTol(Ctx& ctx, const TreeView& got, const TreeView& expect, doub
         if (g.multBytes && !arraysClose(g.mult, e.mult, g.multBytes, tol, worst)) ctx.addViolation(cls, "multipoles", what + ": multipole of cell L" + std::to_string(g.level) + " differs beyond rounding (relative error " + std::to_string(worst) + ")");
         if (g.localBytes && !arraysClose(g.local, e.local, g.localBytes, tol, worst)) ctx.addViolation(cls, "locals", what + ": local of cell L" + std::to_string(g.level) + " differs beyond rounding (relative error " + std::to_string(worst) + ")");
     }
+    // the rounding error of an accumulated result scales with the magnitude of the accumulated terms, not with the (possibly
+    // cancelling) result of one leaf: the scale is at least the largest value of the same result row anywhere in the tree
+    std::vector<double> rowScale;
+    for (const LeafRec& e : expect.leaves) {
+        if (rowScale.size() < e.rhs.size()) rowScale.resize(e.rhs.size(), 0.0);
+        for (size_t k = 0; k < e.rhs.size(); ++k) if (e.rhs[k]) rowScale[k] = std::max(rowScale[k], maxAbs(e.rhs[k], size_t(e.n) * (ctx.isFloat ? sizeof(float) : sizeof(double))));
+    }
     for (size_t i = 0; i < got.leaves.size(); ++i) {
         const LeafRec& g = got.leaves[i]; const LeafRec& e = expect.leaves[i];
         if (g.n != e.n || g.coord != e.coord || g.rhs.size() != e.rhs.size()) { ctx.addViolation(cls, "structure", what + ": leaf lists differ"); return; }
         for (size_t k = 0; k < g.rhs.size(); ++k) {
             double worst = 0;
-            if (g.rhs[k] && !arraysClose(g.rhs[k], e.rhs[k], size_t(g.n) * (ctx.isFloat ? sizeof(float) : sizeof(double)), tol, worst)) { ctx.addViolation(cls, "particle-rhs", what + ": result row " + std::to_string(k) + " of a leaf differs beyond rounding (relative error " + std::to_string(worst) + ")"); break; }
+            if (g.rhs[k] && !arraysClose(g.rhs[k], e.rhs[k], size_t(g.n) * (ctx.isFloat ? sizeof(float) : sizeof(double)), tol, worst, rowScale[k])) { ctx.addViolation(cls, "particle-rhs", what + ": result row " + std::to_string(k) + " of a leaf differs beyond rounding (relative error " + std::to_string(worst) + ")"); break; }
         }
     }
 }
